@@ -149,8 +149,17 @@ def gen_case(chk, i):
     mc = "V" if i % 3 else "6"
     ncpu = rng.randint(2, 6) if rng.random() < 0.8 else rng.randint(9, 18)
     nth = rng.randint(2, 6) if ncpu <= 6 else rng.randint(6, 14)
-    desc = {"looms": [{"name": "bd", "cpus": [(k, k) for k in range(ncpu)],
-                       "procs": [{"pid": 5, "appid": 1, "threads": list(range(50, 50 + nth))}]}]}
+    # one loom, or (one case in four) the same CPUs and threads spread over 2-3 looms
+    nloom = 1 if rng.random() < 0.75 or ncpu < 4 else rng.randint(2, 3)
+    looms = []
+    for l in range(nloom):
+        cpus = [(k, 100 * l + k) for k in range(ncpu * l // nloom, ncpu * (l + 1) // nloom)]
+        ths = list(range(50 + nth * l // nloom, 50 + nth * (l + 1) // nloom))
+        if not ths:
+            ths = [90 + l]
+        looms.append({"name": "bd%d" % l if nloom > 1 else "bd", "cpus": [(i, p) for i, (k, p) in enumerate(cpus)],
+                      "procs": [{"pid": 5 + l, "appid": 1 + l, "threads": ths}]})
+    desc = {"looms": looms}
     # a third of the histories pause and resume tasks bare (no API / blocking
     # region around the pause), the rest in the shape the runtimes produce
     bare = rng.random() < 0.35
@@ -169,7 +178,8 @@ def run_case(i):
     case = gen_case(chk, i)
     mc, desc, hist = case["mc"], case["desc"], case["hist"]
     wd = os.path.join(chk.scratch, "b%d" % i)
-    res = {"i": i, "viol": None, "inconclusive": None, "events": len(hist), "mc": mc, "ncpu": len(desc["looms"][0]["cpus"]),
+    res = {"i": i, "viol": None, "inconclusive": None, "events": len(hist), "mc": mc,
+           "ncpu": sum(len(l["cpus"]) for l in desc["looms"]), "nloom": len(desc["looms"]),
            "changes": 0, "bare": case["bare"], "bodyless": 0}
     try:
         extra = {"nosv": {"can_breakdown": True}} if mc == "V" else None
@@ -266,7 +276,7 @@ def main(argv):
         if r["inconclusive"]:
             chk.note_inconclusive(r["inconclusive"]); continue
         nb += 1; ev += r["events"]; changes += r["changes"]; nbare += 1 if r["bare"] else 0; bodyless += r["bodyless"]
-        shapes.add((r["mc"], r["ncpu"]))
+        shapes.add((r["mc"], r["ncpu"], r["nloom"]))
         if r["viol"]:
             chk.report(r["viol"][0], r["viol"][1], {"case": r["i"], "observation": r["viol"][2]})
     cov = {"evaluations": nseq + nb, "distinct_nontrivial": dseq + len(shapes),
@@ -275,9 +285,9 @@ def main(argv):
                    "inputs, 64-bit values, several inputs per propagation): outputs == ascending sort (null as 0) after each "
                    "propagation and the set of outputs written == outputs whose value changed; (B) nOS-V and Nanos6 "
                    "histories (tasks of several types, subsystems, idle states, pause/migration, tasks paused inside an API/"
-                   "blocking region or bare, 2-18 CPUs) emulated with -b: "
+                   "blocking region or bare, 2-18 CPUs in 1-3 looms) emulated with -b: "
                    "breakdown rows == sorted per-physical-CPU values derived from the same run's cpu.prv after every event. "
-                   "distinct_nontrivial = distinct harness sequences + (model, CPUs) shapes",
+                   "distinct_nontrivial = distinct harness sequences + (model, CPUs, looms) shapes",
            "samples": [{"harness": "3 : 0=2 ; 1=1 ; 0=N", "expected": "0 0 2 / 111 ; 0 1 2 / 010 ; 0 0 1 / 011"}],
            "harness_sequences": nseq, "harness_propagations": nsteps, "breakdown_traces": nb, "events_compared": ev,
            "distinct_breakdown_states": changes, "bare_pause_histories": nbare,
